@@ -39,6 +39,8 @@ def params(draw, tier):
             s["frac"] = draw(st.floats(0.5, 4.0))
     p["cm"] = draw(st.booleans())
     p["guess_frac"] = draw(st.sampled_from([0.0, 0.0, 0.3, 1.0]))
+    # a user pairing that contradicts proximity: one junction is hand-paired with the true successor of another one
+    p["guess_conflict"] = draw(st.sampled_from([False, False, True]))
     p["lab_seeds"] = [draw(st.integers(0, 2 ** 32 - 1)) for _ in range(p["n_frames"])]
     p["relabel"] = draw(st.sampled_from([True, True, True, False]))
     return p
@@ -120,6 +122,7 @@ def check_case(p, ctx):
     n = len(S.frames)
     # user-supplied pairings (true pairs for a drawn subset; every frame key present, as callers do)
     guess = {}
+    conflict = {}
     rng = PRNG(p["lab_seeds"][0] ^ 0x9e3779b9)
     for k in range(n):
         g = {}
@@ -127,6 +130,15 @@ def check_case(p, ctx):
             for j in js:
                 if rng.uniform() < p["guess_frac"]:
                     g[S.vid(k, j)] = S.vid(k + 1, j)
+        if k < n - 1 and p.get("guess_conflict") and len(js) >= 2:
+            ia = int(rng.integers(0, len(js)))
+            # nearest other junction
+            za = S.T[k].J[js[ia]]
+            ib = min((i for i in range(len(js)) if i != ia), key=lambda i: abs(S.T[k].J[js[i]] - za))
+            g = {a_: b_ for a_, b_ in g.items() if a_ not in (S.vid(k, js[ia]), S.vid(k, js[ib]))
+                 and b_ != S.vid(k + 1, js[ib])}
+            g[S.vid(k, js[ia])] = S.vid(k + 1, js[ib])
+            conflict[k] = {js[ia], js[ib]}
         guess[k] = g
     fsys = call(fs.ForSys, S.frames, cm=p["cm"], initial_guess={k: dict(v) for k, v in guess.items()})
     mesh = fsys.mesh
@@ -158,8 +170,11 @@ def check_case(p, ctx):
         for a, b in guess[k].items():
             if m.get(a) != b:
                 return ctx.violation("user-pair-not-honoured", p, observed=m.get(a), expected=b, detail={"k": k})
-        # ---- conditional clause
-        if ok:
+        # ---- conditional clause (not for steps with a user pairing that contradicts the true correspondence)
+        if k in conflict:
+            ctx.count("steps-with-conflicting-user-pairing")
+            conditional = False
+        elif ok:
             for j in js:
                 a, b = S.vid(k, j), S.vid(k + 1, j)
                 if m.get(a) != b:
